@@ -216,6 +216,9 @@ inductive Op (α : Type) where
   | readLastNoise
   /-- `corrupt_concatenated_data(X)`: the data already stacked, the output not split -/
   | corruptCat (X : Mat α) (noise : Option (Mat α))
+  /-- what `corrupt_data(x[, xe])` hands to `corrupt_concatenated_data`: `np.vstack` of the per-transmitter
+      blocks (the interference blocks appended on the ExtInt class) -/
+  | stackData (x xe : List (Mat α))
   deriving Repr
 
 inductive Out (α : Type) where
@@ -479,6 +482,7 @@ def step (cfg : Cfg) (F : Fns α) (st : State α) : Op α → State α × Out α
   | .readNoiseVar => (st, .optScalar st.noiseVar)
   | .readLastNoise => (st, .optMat st.lastNoise)
   | .corruptCat X noise => doCorruptCat F st X noise
+  | .stackData x xe => (st, .mat (if st.isExt then x ++ xe else x).flatten)
 
 /-- run a history; outputs in order -/
 def run (cfg : Cfg) (F : Fns α) : State α → List (Op α) → State α × List (Out α)
